@@ -40,7 +40,8 @@ type c17Pub struct {
 	Node  int    `json:"n"`
 	Topic string `json:"t"`
 	QoS   byte   `json:"q"`
-	Kind  string `json:"k"` // plain | retain | clear
+	Kind  string `json:"k"` // plain | retain | clear | will (published as the will of a client that dies on the node)
+	Props int    `json:"props,omitempty"` // application properties, bit set as in C01 (1 payload-format, 2 content-type, 4 response-topic, 16 user)
 }
 
 type c17Change struct {
@@ -83,7 +84,8 @@ func genC17Pubs(t *rapid.T, nodes int, lo, hi int) []c17Pub {
 	for i := 0; i < n; i++ {
 		out = append(out, c17Pub{Node: rapid.IntRange(0, nodes-1).Draw(t, "pnode"), Topic: rapid.SampledFrom(c17Topics).Draw(t, "topic"),
 			QoS:  byte(rapid.SampledFrom([]int{0, 1, 1, 2}).Draw(t, "pqos")),
-			Kind: rapid.SampledFrom([]string{"plain", "plain", "plain", "plain", "retain", "retain", "clear"}).Draw(t, "kind")})
+			Kind:  rapid.SampledFrom([]string{"plain", "plain", "plain", "plain", "retain", "retain", "clear", "will"}).Draw(t, "kind"),
+			Props: rapid.SampledFrom([]int{0, 0, 2, 7, 16, 23}).Draw(t, "props")})
 	}
 	return out
 }
@@ -399,7 +401,7 @@ func (r *c17Run) publish(p c17Pub) *ev.Violation {
 	r.npub++
 	uid := fmt.Sprintf("m%03d", r.npub)
 	origin := r.cl.Nodes[p.Node]
-	retain := p.Kind != "plain"
+	retain := p.Kind == "retain" || p.Kind == "clear"
 	c.Logf("publish %s: %+v", uid, p)
 
 	// ---- expectations from the model, at publish time ----
@@ -459,18 +461,37 @@ func (r *c17Run) publish(p c17Pub) *ev.Violation {
 		before[i] = n.NextIDs()
 	}
 	r.pid++
-	pk := &mw.Packet{Topic: p.Topic, QoS: p.QoS, PacketID: r.pid, Retain: retain, Payload: []byte(uid),
-		Props: &mw.Props{CorrelationData: []byte(uid), HasCorrelationData: true}}
+	sentProps := pubProps(p.Props &^ 8)
+	if sentProps == nil {
+		sentProps = &mw.Props{}
+	}
+	sentProps.CorrelationData, sentProps.HasCorrelationData = []byte(uid), true
+	pk := &mw.Packet{Topic: p.Topic, QoS: p.QoS, PacketID: r.pid, Retain: retain, Payload: []byte(uid), Props: sentProps}
 	if p.Kind == "clear" {
 		pk.Payload = nil
 	}
-	pc := r.pubs[p.Node]
-	if _, err := pc.Publish(pk); err != nil {
-		return ev.Violf("C17.ack", "publish %s not acknowledged: %v", uid, err)
-	}
-	if p.QoS == 0 {
-		if err := pc.Ping(fixture.DefaultWait); err != nil {
-			return ev.Violf("C17.ack", "no PINGRESP after QoS0 publish %s: %v", uid, err)
+	if p.Kind == "will" {
+		// the message is the will of a client that dies on the origin node (no delay, no session): it is published
+		// inside the broker and must be routed like any other publish
+		wid := fmt.Sprintf("w%d-%s", p.Node, uid)
+		wc, ack, err := origin.Connect(fixture.ConnectOpts{ID: wid, V: mw.V5, CleanStart: true,
+			Will: &mw.Will{QoS: p.QoS, Topic: p.Topic, Payload: []byte(uid), Props: sentProps}})
+		if err != nil || ack.ReasonCode != 0 {
+			return harnessErr("will client connect: %v %v", ack, err)
+		}
+		wc.Kill()
+		if !waitClientGone(origin.Broker, wid) {
+			return harnessErr("will client still registered 5 s after its socket was closed")
+		}
+	} else {
+		pc := r.pubs[p.Node]
+		if _, err := pc.Publish(pk); err != nil {
+			return ev.Violf("C17.ack", "publish %s not acknowledged: %v", uid, err)
+		}
+		if p.QoS == 0 {
+			if err := pc.Ping(fixture.DefaultWait); err != nil {
+				return ev.Violf("C17.ack", "no PINGRESP after QoS0 publish %s: %v", uid, err)
+			}
 		}
 	}
 	if err := origin.WaitDrained(15 * time.Second); err != nil {
@@ -558,6 +579,13 @@ func (r *c17Run) publish(p c17Pub) *ev.Violation {
 				}
 				if string(pk.Payload) != wantPayload || pk.Topic != p.Topic {
 					return ev.Violf("C17.content", "client %s received %s, expected topic %q payload %q", cl.cl.ID, pk, p.Topic, wantPayload)
+				}
+				if g, w := appProps(pk.Props), appProps(sentProps); g != w {
+					where := "on the origin node"
+					if ni != p.Node {
+						where = "on a peer node"
+					}
+					return ev.Violf("C17.properties", "client %s %s received %s with application properties {%s}, published with {%s}", cl.cl.ID, where, uid, g, w).With("where", where, "props", p.Props)
 				}
 				ids := pk.Props.SubscriptionIDs
 				if len(ids) == 0 {
